@@ -723,8 +723,11 @@ def nested(method='sad', ws=3, H=3, W=6, inner=(-1, 0), outer=(-2, 1), masks=Tru
                                   S.term_eq(ci._a[r, c, k], co._a[r, c, k + off], 'x4')))
         props.append(("disparity-coordinates", z3.BoolVal(list(outs[0].coords["disp"].data) == list(range(inner[0], inner[1] + 1))
                                                           and list(outs[1].coords["disp"].data) == list(range(outer[0], outer[1] + 1)))))
+        hh = ws // 2
+        possible = any(hh <= c < W - hh and hh <= c + d < W - hh for c in range(W) for d in range(inner[0], inner[1] + 1)) and H > 2 * hh
         col.check_path(props, label='p%d' % len(EX.trace), extra=ex,
-                       witnesses=[("a-finite-cost-exists", z3.Or(*[S.xlift(e).tag == 0 for e in ci._a.flat]))])
+                       witnesses=[("a-finite-cost-exists", z3.Or(*[S.xlift(e).tag == 0 for e in ci._a.flat]))] if possible else
+                                 [("reached (the inner interval admits no computable cost on this image width)", z3.BoolVal(True))])
         info['fn'] = instr.fn_hash(MC.AbstractMatchingCost.cv_masked, MC.AbstractMatchingCost.point_interval, MC.AbstractMatchingCost.grid_estimation)
     res, stats = explore(h, max_paths=16)
     return col.result(stats, functions=info.get('fn', {}),
